@@ -29,6 +29,7 @@ type Opts struct {
 	Full   bool         `json:"full,omitempty"`   // parenthesise every operand
 	Extra  map[int]int  `json:"extra,omitempty"`  // node id -> redundant paren pairs around the node
 	ValPar map[int]int  `json:"valpar,omitempty"` // NField/NCmp node id -> paren pairs around the value term
+	LstPar map[int]int  `json:"lstpar,omitempty"` // NList node id -> bit mask of list values written in parentheses
 	Juxta  map[int]bool `json:"juxta,omitempty"`  // AND node ids written as juxtaposition
 	KwCase []int        `json:"kwcase,omitempty"` // style per keyword occurrence, cycled
 	Fill   []string     `json:"fill,omitempty"`   // whitespace per gap, cycled; gap 0 is leading, last is trailing
@@ -159,7 +160,13 @@ func (p *printer) emit(n *Node, wrap, isRoot bool) {
 			if i > 0 {
 				p.kwd("OR", id)
 			}
-			p.term(v, id)
+			if p.o.LstPar[id]&(1<<uint(i)) != 0 {
+				p.sym("(", id)
+				p.term(v, id)
+				p.sym(")", id)
+			} else {
+				p.term(v, id)
+			}
 		}
 		p.sym(")", id)
 	case NGroup:
